@@ -47,8 +47,8 @@ Definition unmarshal_leaf (typ : Z) (data : option bytes) : res unit :=
     (* **inf.Dec is nullable: nil data sets nil; otherwise *inf.Dec needs 4 bytes *)
     match data with None => Ok tt | Some _ => if blen d <? 4 then Err EUnmarshal else Ok tt end
   else if typ =? K.TypeDate then
-    (* binary.BigEndian.Uint32(data) *)
-    if blen d =? 0 then Ok tt else if blen d <? 4 then Crash CDateShort else Ok tt
+    (* zero value for no bytes; otherwise four bytes are needed for binary.BigEndian.Uint32(data) *)
+    if blen d =? 0 then Ok tt else if blen d <? 4 then Err EUnmarshal else Ok tt
   else if (typ =? K.TypeUUID) || (typ =? K.TypeTimeUUID) then
     if (blen d =? 0) || (blen d =? 16) then Ok tt else Err EUnmarshal
   else if typ =? K.TypeDuration then
@@ -113,7 +113,9 @@ Fixpoint unmarshal (proto : Z) (t : tinfo) (data : option bytes) {struct t} : re
             end
           else
             lift (out (read_coll_size proto) d) (fun nd =>
-              if fst nd <? 0 then Crash CListNeg            (* reflect.MakeSlice(t, n, n) *)
+              if fst nd <? 0 then Err EUnmarshal            (* "negative list size" *)
+              else if fst nd >? blen (snd nd) / (if proto >? K.protoVersion2 then 4 else 2)
+              then Err EUnmarshal                           (* more elements than size fields could follow *)
               else list_loop (unmarshal proto elem) proto (S (length (snd nd))) (fst nd) (snd nd))
       end
   | TTuple _ elems =>
@@ -256,41 +258,43 @@ Definition next_ident (inp : bytes) (idx : nat) : option (bytes * nat) :=
   let e := scan_while is_ident (skipn idx inp) idx in
   if (e =? idx)%nat then None else Some (firstn (e - idx) (skipn idx inp), e).
 
-(* t.input[t.index]: index out of range at the end of the input *)
-Definition char_at (inp : bytes) (idx : nat) : res Z :=
-  match nth_error inp idx with Some c => Ok c | None => Crash CTypeIdx end.
+(* t.index < len(t.input) && t.input[t.index] == c *)
+Definition char_is (inp : bytes) (idx : nat) (c : Z) : bool :=
+  match nth_error inp idx with Some x => x =? c | None => false end.
 
 Section params.
   (* parseClassNode with one unit less of fuel *)
   Variable parse_class : bytes -> nat -> res (option cnode * nat).
 
-  (* the for loop of parseParamNodes, entered after '(' and whitespace; every iteration consumes an identifier *)
+  (* the for loop of parseParamNodes, entered after '(' and whitespace; every iteration consumes an identifier;
+     it also stops at the end of the input, which the caller turns into "unparsable" *)
   Fixpoint param_loop (fuel : nat) (inp : bytes) (idx : nat) (acc : list (option bytes * cnode))
     : res (option (list (option bytes * cnode)) * nat) :=
     match fuel with
     | O => Err EFuel
     | S f =>
-        lift (char_at inp idx) (fun c =>
-        if c =? 41 then Ok (Some (rev acc), S idx)          (* consume the ')' *)
-        else
-          let backup := idx in
-          match next_ident inp idx with
-          | None => Ok (None, idx)
-          | Some (name, idx1) =>
-              let idx2 := skip_ws inp idx1 in
-              lift (char_at inp idx2) (fun c2 =>
-              let has_name := c2 =? 58 in
-              let idx3 := if has_name then skip_ws inp (S idx2) else backup in
-              lift (parse_class inp idx3) (fun r =>
-              match fst r with
-              | None => Ok (None, snd r)
-              | Some node =>
-                  let idx4 := skip_ws inp (snd r) in
-                  lift (char_at inp idx4) (fun c4 =>
-                  let idx5 := if c4 =? 44 then skip_ws inp (S idx4) else idx4 in
-                  param_loop f inp idx5 ((if has_name then Some name else None, node) :: acc))
-              end))
-          end)
+        match nth_error inp idx with
+        | None => Ok (None, idx)                              (* the parameter list is not closed *)
+        | Some c =>
+            if c =? 41 then Ok (Some (rev acc), S idx)        (* consume the ')' *)
+            else
+              let backup := idx in
+              match next_ident inp idx with
+              | None => Ok (None, idx)
+              | Some (name, idx1) =>
+                  let idx2 := skip_ws inp idx1 in
+                  let has_name := char_is inp idx2 58 in
+                  let idx3 := if has_name then skip_ws inp (S idx2) else backup in
+                  lift (parse_class inp idx3) (fun r =>
+                  match fst r with
+                  | None => Ok (None, snd r)
+                  | Some node =>
+                      let idx4 := skip_ws inp (snd r) in
+                      let idx5 := if char_is inp idx4 44 then skip_ws inp (S idx4) else idx4 in
+                      param_loop f inp idx5 ((if has_name then Some name else None, node) :: acc)
+                  end)
+              end
+        end
     end.
 
   Definition parse_params (fuel : nat) (inp : bytes) (idx : nat) : res (option (list (option bytes * cnode)) * nat) :=
@@ -317,22 +321,30 @@ Fixpoint parse_class (fuel : nat) (inp : bytes) (idx : nat) : res (option cnode 
       end
   end.
 
-(* asTypeInfo *)
-Definition param_class (ps : list (option bytes * cnode)) (i : nat) : res cnode :=
-  match nth_error ps i with Some p => Ok (snd p) | None => Crash CTypeParams end.
+(* asTypeInfo: a List/Set/Map class without the parameters it needs is kept as a custom type *)
+Definition custom_of (c : cnode) : tinfo := TNative K.TypeCustom (cn_input c).
 
 Fixpoint as_type_info (fuel : nat) (c : cnode) : res tinfo :=
   match fuel with
   | O => Err EFuel
   | S f =>
       if has_prefix (cn_name c) K.LIST_TYPE then
-        lift (param_class (cn_params c) 0) (fun e => lift (as_type_info f e) (fun t => Ok (TColl K.TypeList [] None t)))
+        match cn_params c with
+        | e :: _ => lift (as_type_info f (snd e)) (fun t => Ok (TColl K.TypeList [] None t))
+        | [] => Ok (custom_of c)
+        end
       else if has_prefix (cn_name c) K.SET_TYPE then
-        lift (param_class (cn_params c) 0) (fun e => lift (as_type_info f e) (fun t => Ok (TColl K.TypeSet [] None t)))
+        match cn_params c with
+        | e :: _ => lift (as_type_info f (snd e)) (fun t => Ok (TColl K.TypeSet [] None t))
+        | [] => Ok (custom_of c)
+        end
       else if has_prefix (cn_name c) K.MAP_TYPE then
-        lift (param_class (cn_params c) 0) (fun k => lift (as_type_info f k) (fun kt =>
-        lift (param_class (cn_params c) 1) (fun e => lift (as_type_info f e) (fun et =>
-        Ok (TColl K.TypeMap [] (Some kt) et)))))
+        match cn_params c with
+        | k :: e :: _ =>
+            lift (as_type_info f (snd k)) (fun kt => lift (as_type_info f (snd e)) (fun et =>
+            Ok (TColl K.TypeMap [] (Some kt) et)))
+        | _ => Ok (custom_of c)
+        end
       else
         let typ := apache_type (cn_name c) in
         Ok (TNative typ (if typ =? K.TypeCustom then cn_input c else []))
@@ -362,6 +374,12 @@ Record type_result := {
   tr_collections : list (bytes * tinfo)       (* in source order; a Go map *)
 }.
 
+(* ReversedType(x) stands for x; without a parameter it is left as it is *)
+Definition unreverse (cls : cnode) : bool * cnode :=
+  if has_prefix (cn_name cls) K.REVERSED_TYPE
+  then match cn_params cls with p :: _ => (true, snd p) | [] => (false, cls) end
+  else (false, cls).
+
 (* typeParser.parse *)
 Definition parse_type (def : bytes) : res type_result :=
   let fuel := S (length def) in
@@ -369,13 +387,15 @@ Definition parse_type (def : bytes) : res type_result :=
   match fst r with
   | None => Ok {| tr_composite := false; tr_types := [TNative K.TypeCustom def]; tr_reversed := [false]; tr_collections := [] |}
   | Some ast =>
+      let non_composite :=
+        let rc := unreverse ast in
+        lift (as_type_info fuel (snd rc)) (fun t =>
+        Ok {| tr_composite := false; tr_types := [t]; tr_reversed := [fst rc]; tr_collections := [] |}) in
       if has_prefix (cn_name ast) K.COMPOSITE_TYPE then
-        let count := length (cn_params ast) in
-        (* last := ast.params[count-1] *)
-        match count with
-        | O => Crash CTypeParams
-        | S cm1 =>
-            lift (param_class (cn_params ast) cm1) (fun last =>
+        match rev (cn_params ast) with
+        | [] => non_composite                         (* a composite without parameters: one (custom) type *)
+        | lastp :: before_rev =>
+            let last := snd lastp in
             let has_coll := has_prefix (cn_name last) K.COLLECTION_TYPE in
             lift (if has_coll then
                     (fix go (ps : list (option bytes * cnode)) : res (list (bytes * tinfo)) :=
@@ -383,27 +403,21 @@ Definition parse_type (def : bytes) : res type_result :=
                        | [] => Ok []
                        | (nm, cls) :: ps' =>
                            match nm with
-                           | None => Crash CTypeNilName        (* hex.DecodeString of the dereferenced param.name *)
+                           | None => go ps'                    (* unnamed: skipped *)
                            | Some n =>
                                let key := match hex_decode n with Some d => d | None => n end in
                                lift (as_type_info fuel cls) (fun t => lift (go ps') (fun rest => Ok ((key, t) :: rest)))
                            end
                        end) (cn_params last)
                   else Ok []) (fun colls =>
-            let count' := if has_coll then cm1 else count in
             lift ((fix go (ps : list (option bytes * cnode)) : res (list (tinfo * bool)) :=
                      match ps with
                      | [] => Ok []
                      | (_, cls) :: ps' =>
-                         let rv := has_prefix (cn_name cls) K.REVERSED_TYPE in
-                         lift (if rv then param_class (cn_params cls) 0 else Ok cls) (fun cls' =>
-                         lift (as_type_info fuel cls') (fun t => lift (go ps') (fun rest => Ok ((t, rv) :: rest))))
-                     end) (firstn count' (cn_params ast))) (fun trs =>
-            Ok {| tr_composite := true; tr_types := map fst trs; tr_reversed := map snd trs; tr_collections := colls |})))
+                         let rc := unreverse cls in
+                         lift (as_type_info fuel (snd rc)) (fun t => lift (go ps') (fun rest => Ok ((t, fst rc) :: rest)))
+                     end) (if has_coll then rev before_rev else cn_params ast)) (fun trs =>
+            Ok {| tr_composite := true; tr_types := map fst trs; tr_reversed := map snd trs; tr_collections := colls |}))
         end
-      else
-        let rv := has_prefix (cn_name ast) K.REVERSED_TYPE in
-        lift (if rv then param_class (cn_params ast) 0 else Ok ast) (fun cls =>
-        lift (as_type_info fuel cls) (fun t =>
-        Ok {| tr_composite := false; tr_types := [t]; tr_reversed := [rv]; tr_collections := [] |}))
+      else non_composite
   end).
